@@ -8,7 +8,8 @@
       RefExact m (number of live handles on the node), i.e.
       ∀ k, ref k = indeg k + #{h | |handles h| = k} + (if k = 1 then 1 else 0),
       `_ref` has no key outside `_succ`
-      ∧ (mode `off = true`) dynamic reordering is not enabled.
+      ∧ (mode `off = true`) dynamic reordering is not enabled;  the mode `off = false` is EVERY
+      configuration: reordering enabled or not, any number of declared variables.
 
   UNCONDITIONAL (no hypothesis about the core left):
     * registry bookkeeping: `C08_wrap`, `C08_drop`, `C08_drop_wrap_id`, `C08_counts`
@@ -26,8 +27,8 @@
     * shutdown after "drop everything, collect" (`C08_collect_then_shutdown`)
     * shutdown with garbage still stored (`C08_shutdown`), `copy_vars` into a target without
       nodes (`C08_copy_vars_fresh`)
-  CONDITIONAL, hypothesis named: `copy_vars` into a target that already stores nodes
-  (`C08_copy_vars`: its levels can leave a gap, F7).
+  `copy_vars` into any target with compatible declarations (`C08_copy_vars`, from C11; with
+  incompatible declarations `add_var` raises or leaves a gap, F7: not covered).
   Dynamic reordering ENABLED: `C08_ops_dyn_total` (ARBITRARY arguments, returns or raises; from
   main's `*_total_dyn`), `C08_ops_dyn` / `C08_image_dyn` (well-formed calls, from the C09
   transparency theorems), `C08_find_or_add` (both modes), plus everything of
@@ -181,6 +182,52 @@ theorem C08_ops_unconditional (h : Nat) :
    fun high hs => fChild_keeps high hs h, fun hs => fCopy_keeps hs h,
    fun hu h2 hne => aSucc_keepsL hu h h2 hne, fun hs ho => fEq_keeps0 hs ho,
    fun hs ho => fNe_keeps0 hs ho, aCollectGarbage_keepsAll h⟩
+
+/-- comparisons with an operand that is not a `Function`, and `f ^ g` (no `__xor__`): nothing
+changes in any mode, whatever the answer — `f == None` is `False`, `f != None` is `True`, everything
+else raises `NotImplementedError`; `f ^ g` raises `TypeError` -/
+theorem C08_function_non_function_operands :
+    (∀ op hs x, AKeeps0 off (fCmpOther op hs x)) ∧ (∀ hs ho, AKeeps0 off (fXor hs ho)) ∧
+    (∀ (a : AMgr) hs u, a.handles[hs]? = some u →
+      fCmpOther "eq" hs .none_ a = (.ok false, a) ∧ fCmpOther "ne" hs .none_ a = (.ok true, a) ∧
+      (∀ op, fCmpOther op hs .other a = (.error .notImplemented, a)) ∧
+      (∀ x, fCmpOther "le" hs x a = (.error .notImplemented, a)) ∧
+      (∀ x, fCmpOther "lt" hs x a = (.error .notImplemented, a)) ∧
+      ∀ ho v, a.handles[ho]? = some v → fXor hs ho a = (.error .type, a)) := by
+  have hread : ∀ op hs x, ARead (fCmpOther op hs x) := by
+    intro op hs x
+    unfold fCmpOther
+    refine ARead.bind (nodeOwn_read hs) fun _ => ?_
+    split
+    · exact ARead.pure _
+    · split
+      · exact ARead.pure _
+      · exact ARead.throw _
+  have hxor : ∀ hs ho, ARead (fXor hs ho) := by
+    intro hs ho
+    unfold fXor
+    exact ARead.bind (nodeOwn_read hs) fun _ => ARead.bind (nodeAny_read ho) fun _ => ARead.throw _
+  refine ⟨fun op hs x => AKeeps0.of_read (hread op hs x), fun hs ho => AKeeps0.of_read (hxor hs ho),
+    fun a hs u hu => ?_⟩
+  have hown : nodeOwn hs a = (.ok u, a) := by unfold nodeOwn; rw [hu]
+  have ev : ∀ op x, fCmpOther op hs x a =
+      (if op == "eq" && x == .none_ then (pure false : AM Bool)
+       else if op == "ne" && x == .none_ then pure true else AM.throw .notImplemented) a := by
+    intro op x
+    unfold fCmpOther
+    rw [AM.bind_eq, hown]
+  refine ⟨by rw [ev]; rfl, by rw [ev]; rfl, fun op => ?_, fun x => by rw [ev]; rfl,
+    fun x => by rw [ev]; rfl, fun ho v hv => ?_⟩
+  · rw [ev]
+    have h1 : (AOther.other == AOther.none_) = false := by decide
+    simp only [h1, Bool.and_false, Bool.false_eq_true, if_false]
+    rfl
+  · have hany : nodeAny ho a = (.ok v, a) := by unfold nodeAny; rw [hv]
+    unfold fXor
+    rw [AM.bind_eq, hown]
+    simp only
+    rw [AM.bind_eq, hany]
+    rfl
 
 /-- dynamic reordering possibly ENABLED (mode `off = false`: `AInv false` = the invariant with at
 least two variables; the reordering request may fire at any node creation, C09): for live
@@ -365,14 +412,23 @@ the source (a fresh target in particular, `VarsCompat.empty`): every mode.  Afte
 declares exactly the source's variables at the source's levels (C11 `copyVarsCore_spec`). -/
 theorem C08_copy_vars_fresh (a : AMgr) (src : Tbl) (hO : OrderOK src) (names : List String)
     (hperm : names.Perm src.vars.keys) (hc : VarsCompat src a.m.tbl)
-    (hnone : ∀ u : Nat, a.m.tbl.node? u = none) (h2 : off = false → 2 ≤ src.nvars) (h : Nat) :
+    (hnone : ∀ u : Nat, a.m.tbl.node? u = none) (h : Nat) :
     AKeepsAt off a h (aCopyVars src names) :=
-  aCopyVars_keepsAt_noNodes a src hO names hperm hc hnone h2 h
+  aCopyVars_keepsAt_noNodes a src hO names hperm hc hnone h
 
-/-- `copy_vars` into a target that already stores nodes: it adds the variables at the levels of the
-source, which can leave a gap or collide with used levels (finding F7); general form with the
-core hypothesis -/
-theorem C08_copy_vars (a : AMgr) (src : Tbl) (names : List String) (h : Nat)
+/-- `copy_vars(source, target)` into ANY target whose declarations are compatible with the source
+(`VarsCompat`: every variable the target declares is declared by the source at the same level —
+the condition under which `add_var(var, level)` of the loop neither raises nor leaves a gap, F7), the
+target possibly storing nodes: every mode, no hypothesis about the core left (discharged by C11
+`C11_copy_vars` = `copyVarsCore_spec` + `copyVarsCore_inv`).  The invariant with the count equation
+is kept, and every live `Function` keeps its meaning by name. -/
+theorem C08_copy_vars (a : AMgr) (src : Tbl) (hO : OrderOK src) (names : List String)
+    (hperm : names.Perm src.vars.keys) (hc : VarsCompat src a.m.tbl) (h : Nat) :
+    AKeepsAt off a h (aCopyVars src names) :=
+  aCopyVars_keepsAt_compat a src hO names hperm hc h
+
+/-- the general form with the core hypothesis (kept for callers that have it) -/
+theorem C08_copy_vars_of_core (a : AMgr) (src : Tbl) (names : List String) (h : Nat)
     (hs : CoreKeepsAt off a.m (copyVarsCore src names)) : AKeepsAt off a h (aCopyVars src names) :=
   aCopyVars_keepsAt a src names hs h
 
@@ -419,7 +475,7 @@ theorem C08_shutdown : C08_shutdown_statement :=
 /-- a fresh `autoref.BDD()` satisfies the invariant (reordering is not enabled in it) -/
 theorem AInv.empty : AInv true ({} : AMgr) := by
   refine ⟨⟨Inv.init, OrderOK.empty, ⟨fun k => ?_, fun k c hk => ?_, fun k hk => ?_⟩, rfl, rfl, rfl,
-    ⟨fun _ => rfl, fun h => nomatch h⟩⟩, fun h u hh => ?_⟩
+    fun _ => rfl⟩, fun h u hh => ?_⟩
   rotate_left 3
   · rw [show ({} : AMgr).handles = (∅ : TreeMap Nat Int) from rfl, TreeMap.getElem?_emptyc] at hh
     cases hh
@@ -441,6 +497,26 @@ theorem AInv.empty : AInv true ({} : AMgr) := by
     · rw [getElem?_insert_ne _ _ _ _ h1, TreeMap.getElem?_emptyc] at hk'
       cases hk'
   · exact hcount_of_isEmpty _ _ TreeMap.isEmpty_emptyc
+
+/-- the usual script start `b = autoref.BDD(); b.configure(reordering=True); b.declare('x');
+f = b.var('x'); g = b.var('x')`: every state is inside the mode `off = false` (which asks nothing
+about the number of variables), so `C08_ops_dyn_total` applies from the empty manager on -/
+def nvS1 : AMgr := (aConfigure (some true) {}).2
+def nvS2 : AMgr := (aDeclare ["x"] nvS1).2
+def nvS3 : AMgr := (aVar "x" 0 nvS2).2
+def nvS4 : AMgr := (aVar "x" 1 nvS3).2
+
+theorem nvS_inv : AInv false nvS1 ∧ AInv false nvS2 ∧ AInv false nvS3 ∧ AInv false nvS4 ∧
+    nvS4.m.lastLen.isSome = true ∧ nvS4.m.nvars = 1 ∧ nvS4.handles.toList = [(0, 2), (1, 2)] := by
+  have i1 : AInv false nvS1 :=
+    ((C08_ops_dyn_total 99).2.2.2.2.2.2.2.2.2.2.2.2.2.2.2.2.2.2.2.1 (some true) {} AInv.empty.toDyn
+      (by decide) _ _ rfl).1
+  have i2 : AInv false nvS2 :=
+    ((C08_ops_dyn_total 99).2.2.2.2.2.2.2.2.2.2.2.2.2.2.2.2.2.2.2.2.1 ["x"] nvS1 i1
+      (by decide +kernel) _ _ rfl).1
+  have i3 : AInv false nvS3 := ((C08_ops_dyn_total 0).1 "x" nvS2 i2 (by decide +kernel) _ _ rfl).1
+  have i4 : AInv false nvS4 := ((C08_ops_dyn_total 1).1 "x" nvS3 i3 (by decide +kernel) _ _ rfl).1
+  exact ⟨i1, i2, i3, i4, by decide +kernel, by decide +kernel, by decide +kernel⟩
 
 /-- a state with a live `Function` (the constant `true` as handle 0) satisfies the invariant:
 the hypotheses of `C08_drop`, `C08_live_den` are satisfiable with a non-empty registry -/
